@@ -919,6 +919,7 @@ pub fn worker(ctx: &'static Ctx, i: usize, n: usize) {
     for level in if single { vec![] } else { preliminary_log_levels(ctx.tier) } {
         set_logging_level(level);
         set_source_env_vars(level == log::LevelFilter::Debug);
+        break_stderr(level == log::LevelFilter::Trace && variant_name().is_none());
         if level == log::LevelFilter::Trace {
             crate::clock::set_global_now_ms(PASS1_CLOCK_MS);
         } else {
@@ -932,12 +933,13 @@ pub fn worker(ctx: &'static Ctx, i: usize, n: usize) {
         ctx.mark_pass_boundary(&level.to_string().to_lowercase());
     }
     set_logging(false);
+    break_stderr(false);
     set_source_env_vars(false);
     crate::clock::set_global_offset_ns(0);
     let mut st = Stats::new();
     let (ex, pts, rep) = run_roots(ctx, &sim, &mine, &mut st);
     if crate::s3sim::HANDLER_PANICS.load(std::sync::atomic::Ordering::SeqCst) > 0 {
-        eprintln!("MACHINERY: simulator handler panicked in worker {i}");
+        crate::core::elog!("MACHINERY: simulator handler panicked in worker {i}");
         std::process::exit(3);
     }
     println!("WORKER_RESULT {}", json!({"stats": st.to_json(), "fails": ctx.export_fails(), "executions": ex, "points": pts, "replays": rep}));
